@@ -1259,7 +1259,8 @@ func (t *Table) UnmergeCells(row, col int) error {
 			if col < len(t.Rows[i].Cells) {
 				otherCell := &t.Rows[i].Cells[col]
 				if otherCell.Properties != nil && otherCell.Properties.VMerge != nil {
-					if otherCell.Properties.VMerge.Val == "continue" {
+					// w:val 缺省即为 "continue"（Word 写出的 <w:vMerge/>）
+					if v := otherCell.Properties.VMerge.Val; v == "continue" || v == "" {
 						// 恢复单元格内容
 						otherCell.Properties.VMerge = nil
 						if len(otherCell.Paragraphs) == 0 {
